@@ -11,19 +11,19 @@ NOTE = ("trusted base: go/ssa (x/tools v0.29.0) lowering of /repo's current tree
 
 claimed = {
  "C01": dict(
-   text="Bounded symbolic model checking of the real ring kernels from go/ssa: scalar reductions (MRed/BRed/MForm/IMForm/CRed + lazy forms) for all 64-bit inputs per modulus of a stated set; all 37 unrolled vector kernels (lane discipline on 16 lanes + lane semantics); forward/inverse NTT (N=16,32; thorough to 128) by stage-cut lemmas whose concrete stage matrices compose to the definition matrix; every obligation is an SMT query (unsat for all values inside the bound).",
+   text="Bounded symbolic model checking of the real ring kernels from go/ssa: scalar reductions (MRed/BRed/MForm/IMForm/CRed + lazy forms) for all 64-bit inputs per modulus of a stated set; all 37 unrolled vector kernels (lane discipline on 16 lanes + lane semantics); forward/inverse NTT of the standard ring (N=16,32; thorough to 128) and of the conjugate-invariant ring (N=8,16,32; thorough to 128) by stage-cut lemmas whose concrete stage matrices compose to the definition matrix, with the documented output ranges; a refuted stage lemma is turned into a reproducible native witness by a registered deterministic search; every obligation is an SMT query (unsat for all values inside the bound).",
    ref="DESIGN.md §6-C01", technique="SSA symbolic execution + SMT (LIA with wrap elimination / BV), stage-cut inductive lemmas for the NTT"),
  "C02": dict(
    text="Word-level bounded symbolic model checking of the real RNS code with a CRT ghost: one coefficient carries an arbitrary mathematical integer (symbolic Int), the code sees its residues. Ring.DivFloor/DivRoundByLastModulus{,Many}{,NTT}: every output limb equals the exact floored / rounded-half-up quotient (all levels, 0..L rescalings). BasisExtender.ModUpQtoP/PtoQ: output ≡ x + e·Q for one e in {-1,0,1}, e=0 below Q/4; ModDownQPtoQ{,NTT}/QPtoP: rounded quotient up to 1; Decomposer.DecomposeAndSplit: digit ≡ x mod its group, same value (up to one group modulus, bounded by it) on all other Q and P limbs; ring.MaskVec power-of-two digits recombine. The float64 correction term is modelled with a sound rounding-error bound; MRed and multSum enter through exact contracts discharged on the real functions for the same moduli; CRT is the single arithmetic axiom (vCRTLift, premises discharged). NTT-domain variants run with the transforms replaced by identity-up-to-documented-lazy-range stand-ins.",
    ref="DESIGN.md §6-C02", technique="SSA symbolic execution + SMT (LIA/LRA with exact mod-q normalisation of specification terms, CRT ghost integer)"),
  "C03": dict(
-   text="Algebraic slot model: the real key generator, encryptor (secret-key / public-key, with and without P, NTT and coefficient-domain parameter sets, every level) and decryptor are executed from SSA with every plaintext, key, mask and error coefficient a free element of Z_q (atom); Dec(Enc(pt))-pt must reduce to error/rounding atoms only, every coefficient must carry a fresh error atom, metadata must be copied, decryption under an independent key must keep the uniform mask. The final polynomial identities are decided by the SMT solver over free monomial variables. Numeric noise bounds / empirical sigma are outside (statistical).",
+   text="Algebraic slot model: the real key generator, encryptor (secret-key / public-key, with and without P, NTT and coefficient-domain parameter sets, every level) and decryptor are executed from SSA with every plaintext, key, mask and error coefficient a free element of Z_q (atom); Dec(Enc(pt))-pt must reduce to error/rounding atoms only, every coefficient must carry a fresh error atom, the two components must not share an error sample, metadata must be copied, decryption under an independent key must keep the uniform mask. The final polynomial identities are decided by the SMT solver over free monomial variables. Numeric noise bounds / empirical sigma are outside (statistical).",
    ref="DESIGN.md §6-C03, §4.3", technique="SSA symbolic execution in the algebraic slot model (field elements over atoms, kernel contracts from C01) + SMT (LIA) on the normalised identities"),
  "C04": dict(
-   text="Algebraic slot model: real genEvaluationKey / AddPolyTimesGadgetVector, GadgetProduct (RNS digits with 0, 1 or several auxiliary primes; power-of-two digits of several widths incl. primes just above a power of two), ModDown and ApplyEvaluationKey executed from SSA with all ciphertext, key, mask and error coefficients free atoms; Dec_{s_out}(out) - Dec_{s_in}(in) must reduce to error/rounding terms for every key parameterisation of the harness (key LevelQ/LevelP below maximum, ciphertext level below key level, NTT and coefficient domain). Digits enter through contracts (RNS digit = input on its own limbs; power-of-two digits recombine over all digits needed to cover the bit length). Ring-degree switching / ring packing and numeric noise bounds are outside.",
+   text="Algebraic slot model: real genEvaluationKey / AddPolyTimesGadgetVector, GadgetProduct (RNS digits with 0, 1 or several auxiliary primes; power-of-two digits of several widths incl. primes just above a power of two), ModDown and ApplyEvaluationKey executed from SSA with all ciphertext, key, mask and error coefficients free atoms; Dec_{s_out}(out) - Dec_{s_in}(in) must reduce to error/rounding terms for every key parameterisation of the harness (key LevelQ/LevelP below maximum, ciphertext level below key level, NTT and coefficient domain). Digits enter through contracts (RNS digit = input on its own limbs; power-of-two digits recombine over all digits needed to cover the bit length). A parameter set with 8x61-bit Q primes and 2x59-bit P primes exercises the lazy accumulation of the gadget product: the tracked ranges of everything handed to the inverse NTT, ModDown and Montgomery products must stay inside what that code tolerates (range obligations; confirmed by a native run on N=256). Ring-degree switching / ring packing and numeric noise bounds are outside.",
    ref="DESIGN.md §6-C04, §4.3", technique="SSA symbolic execution in the algebraic slot model + SMT (LIA) on the normalised identities; native replay on realistic-size primes"),
  "C05": dict(
-   text="Algebraic slot model of the real bgv.Evaluator: Add/Sub (equal and different scales, through the real matchScalesBinary), Mul, MulRelin, Relinearize, Rescale on ciphertexts whose coefficients, keys and key-switch errors are atoms; the phase identities phi_out = phi_0 +- phi_1, T*phi_0*phi_1 (up to key-switch noise), q_L*phi_out = phi_in - delta, the scale bookkeeping modulo t, level/degree and the documented failure conditions are decided per limb. Scales and scalar operands are concrete residues; vector operands/encoder and the scale-invariant (BFV) tensoring are outside for now.",
+   text="Algebraic slot model of the real bgv.Evaluator: Add/Sub (equal and different scales, through the real matchScalesBinary), Mul, MulRelin, Relinearize, Rescale on ciphertexts whose coefficients, keys and key-switch errors are atoms; the phase identities phi_out = phi_0 +- phi_1, T*phi_0*phi_1 (up to key-switch noise), q_L*phi_out = phi_in - delta, the scale bookkeeping modulo t, level/degree and the documented failure conditions are decided per limb. Scalar (*big.Int, uint64, int64, int) and vector operands go through the real encoder; the scale recorded by the scale-invariant product is checked against s0*s1*(-Q_level)^-1 mod t for every level. The data path of the scale-invariant (BFV) tensoring is outside (not a polynomial identity modulo the primes).",
    ref="DESIGN.md §6-C05", technique="SSA symbolic execution in the algebraic slot model + SMT (LIA) on the normalised identities"),
  "C06": dict(
    text="Ring-level algebraic slot model of the real ckks.Evaluator (Add, Sub, Mul, MulRelin, Rescale): phase identities per limb with atoms for all coefficients and exact scale/level bookkeeping (big.Float as exact reals). Numeric precision, vector/complex scalar operands and the floating-point encoder are outside (not encodable).",
@@ -56,7 +56,7 @@ claimed = {
    text="Algebraic slot model of the real Thresholdizer and Combiner: secrets and all Shamir polynomial coefficients are atoms, public points concrete (small, 2^32-sized, above the moduli, 2^63+5); for every t-subset of the parties in every listing order the additive shares sum to the ideal secret as an exact polynomial identity over R_QP, and fewer than t active parties are refused. Symbolic public points are outside (non-linear Lagrange arithmetic).",
    ref="DESIGN.md §6-C15", technique="SSA symbolic execution in the algebraic slot model (concrete evaluation points) + SMT (LIA) on the normalised identities"),
  "C16": dict(
-   text="Algebraic slot model of the real KeySwitchProtocol (incl. zero target key = collective decryption) and PublicKeySwitchProtocol for 1-3 parties, maximum level and level 0, with and without P: Dec under the target key of the switched ciphertext equals Dec under the ideal secret of the input up to error atoms, the aggregate is independent of order, every share carries a smudging error atom. Encryption-to-shares, refresh and masked transform (big-integer masks, encoders) are outside.",
+   text="Algebraic slot model of the real KeySwitchProtocol (incl. zero target key = collective decryption) and PublicKeySwitchProtocol for 1-3 parties, maximum level and level 0, with and without P: Dec under the target key of the switched ciphertext equals Dec under the ideal secret of the input up to error atoms, the aggregate is independent of order, every share carries a smudging error atom drawn from the configured distribution. mpbgv: EncToShare / ShareToEnc / Refresh / MaskedTransform run from SSA with the plaintext ring in the model (values modulo t as atoms, RingT2Q / RingQ2T as integer lift / CRT reduction): shares sum to the message exactly modulo t, re-encryption gives a maximum-level ciphertext of it, refresh returns the message and the masked transform f(message) for a linear f under each decode/encode flag setting. mpckks: the mask rescaling defaultScale/inputScale of refresh / transform at word level for all mask values; its big-integer share arithmetic and FFT are outside.",
    ref="DESIGN.md §6-C16", technique="SSA symbolic execution in the algebraic slot model + SMT (LIA) on the normalised identities"),
  "C20": dict(
    text="Algebraic slot model of the real rgsw.Encryptor and rgsw.Evaluator.ExternalProduct (in place and out of place): RLWE(m) x RGSW(g) decrypts to m*g up to error atoms for the general path with one and several auxiliary primes, the power-of-two path without P and the single-modulus 32-bit fast path, whose un-reduced 64-bit accumulation is tracked as a range obligation; each harness is additionally executed once natively (validation run on realistic primes), which checks the magnitude of the noise that the algebraic model cannot see. Blind rotation (LUT scaling, mod-switch) is outside.",
